@@ -479,6 +479,5 @@ def resave_stream(ctx, g, rng, IRm, all_reqs, all_checks):
 
 
 def replay(ctx, path):
-    d = json.load(open(path))
-    print(json.dumps(d["primary"], indent=1)[:4000])
-    return 0
+    import replaylib
+    return replaylib.replay_file(path)
